@@ -183,6 +183,11 @@ def focused(tier):
     out.append(cfg("renege blocked-at-destination frees", fam, [node(c=1), node(c=1, cap=1)],
                    {"A": klass([ARR, None], [[1.0, 0.5], [4.0, 2.0]], route=matrix([[0.0, 1.0], [0.0, 0.0]]), renege=[None, [1.0, 2.5]])},
                    K=K, T=16.0, features=["blocking", "reneging"]))
+    # patience per class AND per node: A is patient at node 1 only, B at node 2 only (node 2 is a reneging node for B)
+    out.append(cfg("renege per class per node", fam, [node(c=1), node(c=1)],
+                   {"A": klass([ARR, None], [[1.0, 0.5], [3.0, 1.0]], renege=[[1.0, 2.5], None], route=matrix([[0.0, 1.0], [0.0, 0.0]])),
+                    "B": klass([None, {"values": [1.0, 2.0], "budget": 2}], [[1.0], [3.0, 1.0]], renege=[None, PAT], route=matrix([[0.0, 0.0], [0.0, 0.0]]))},
+                   K=K, T=14.0, D=5 if tier == "quick" else 8, features=["reneging", "classes"]))
     fam = "F-baulk"
     out.append(single("baulk by n", fam, c=1, K=K + 1, srv=[2.0, 1.0], classkw={"baulk": [{"by_n": [0.0, 0.5, 1.0]}]}, features=["baulking"]))
     out.append(single("baulk menu", fam, c=1, K=K, srv=[2.0, 1.0], classkw={"baulk": [{"menu": [0.5, 0.0, 1.0]}]}, features=["baulking"]))
